@@ -271,7 +271,9 @@ def _load():
                      B(40000, 400000)))
     order = profile(ordinary_only=True, k=[2, 2, 3], prio=0.85, preempt=0.4, disc=0.8, sched=0.25, sched_pre_opts=[False], ccm=0.3, cct=0.15,
                     qcap=0.4, batch=0.4, renege=0.2, inf=0.05, slot=0.0, ps=0.0, n=[1, 1, 2, 3])
-    register(Profile("C08", [C08, Ref], [(1, core), (1, order)],
+    # slotted nodes (capacitated and pre-emptive ones included): the discipline picks who fills each slot
+    order_slot = dict(order, ordinary_only=False, sched=0.0, slot=0.7, preempt=0.0, ps=0.0, exact=0.0, prio=0.5, horizon=[12.0, 30.0])
+    register(Profile("C08", [C08, Ref], [(3, core), (3, order), (1, order_slot)],
                      "distinct history digest; non-trivial = >=1 discipline decision among >=2 waiting customers of >=2 classes",
                      B(40000, 400000)))
     rout = profile(n=[2, 2, 3, 4], route_kinds={"matrix": 0.25, "net": 0.45, "pb": 0.15, "fpb": 0.15}, ccm=0.4, cct=0.1, qcap=0.3,
@@ -323,7 +325,7 @@ def _load():
                      "distinct history digest; non-trivial = >=1 event with >=2 sharers and >=1 completed PS service during which the occupancy changed; "
                      "metamorphic sub-profile: unlimited PS node with threshold 1 vs FIFO single-server twin on the same tapes (continuous, tie-free)",
                      B(30000, 300000), post=meta_ps, runner=run_c19))
-    pr = profile(time={"cont": 1.0}, splits=4, plan={"time": 1.0}, exact=0.0, f_zero=0.0, f_batch0=0.3, tdep=0.0, n=[1, 2, 2, 3], k=[1, 2],
+    pr = profile(time={"cont": 1.0}, splits=4, mixed=0.0, plan={"time": 1.0}, exact=0.0, f_zero=0.0, f_batch0=0.3, tdep=0.0, n=[1, 2, 2, 3], k=[1, 2],
                  horizon=[8.0, 20.0], f_infarr=0.05, policies=["uniform"])
     register(Profile("C16", [C16], [(1, pr)],
                      "pairs (one call vs split into 2-5 calls) of the same spec; distinct history digest of the split run; non-trivial = >=1 pause "
